@@ -436,6 +436,14 @@ func runE2E(seed int64, nscen int, out string) {
 			scenario(seed, policy, s, enc)
 		}
 	}
+	// secondary hash indexes on tables with prefix-related names
+	nix := nscen / 8
+	if nix < 2 {
+		nix = 2
+	}
+	for i := 0; i < nix; i++ {
+		indexScenario(seed, i, enc)
+	}
 	// range operations around RangeDeleteNum: every configuration under local_deletion; under wait_compact
 	// the LTRIMs (the clears only drop the meta record there)
 	if *e2eBig {
